@@ -119,8 +119,8 @@ func oev(t, kind int, payload ...int) string {
 
 // goroutine states of our workers, from one dump
 func (w *world05) lockWaiters() map[uint64]bool {
-	buf := make([]byte, 1<<20)
-	n := runtime.Stack(buf, true)
+	buf := allStacks()
+	n := len(buf)
 	res := map[uint64]bool{}
 	for _, blk := range bytes.Split(buf[:n], []byte("\n\n")) {
 		m := regexp.MustCompile(`^goroutine (\d+) \[([^\],]+)`).FindSubmatch(blk)
